@@ -111,6 +111,57 @@ pub fn emit(c: &Compiled, shell: &str) -> Result<String, String> {
     String::from_utf8(buf).map_err(|e| format!("{e:?}"))
 }
 
+pub struct Outputs {
+    pub script: String,
+    pub dfa_dot: String,
+    pub regex_dot: String,
+    pub states: usize,
+    pub subdfas: usize,
+}
+
+pub fn array_start(shell: &str) -> u32 {
+    match shell {
+        "bash" | "pwsh" => 0,
+        _ => 1,
+    }
+}
+
+/// everything `complgen --<shell> OUT IN --dfa F --regex G` writes, through the library, in main.rs's order
+pub fn compile_outputs(text: &str, shell: &str) -> Result<Outputs, (&'static str, &'static str)> {
+    let g = Grammar::parse(text).map_err(|e| ("parse", err_kind(&e)))?;
+    let v = ValidGrammar::from_grammar(g, shell_of(shell)).map_err(|e| ("validate", err_kind(&e)))?;
+    let mut pool = RegexInternPool::default();
+    let regex = Regex::from_valid_grammar(&v, &mut pool).map_err(|e| ("regex", err_kind(&e)))?;
+    let mut rd: Vec<u8> = vec![];
+    regex.to_dot(&mut rd, &pool).map_err(|_| ("regex_dot", "IoError"))?;
+    let raw = DFA::from_regex_raw(regex, &pool).map_err(|e| ("dfa", err_kind(&e)))?;
+    let min = raw.minimize();
+    let mut dd: Vec<u8> = vec![];
+    min.to_dot(&mut dd, array_start(shell)).map_err(|e| ("dfa_dot", err_kind(&e)))?;
+    min.check_ambiguity_best_effort().map_err(|e| ("ambiguity", err_kind(&e)))?;
+    let mut states: std::collections::BTreeSet<u32> = std::collections::BTreeSet::new();
+    states.insert(min.starting_state);
+    let mut subs: std::collections::BTreeSet<String> = std::collections::BTreeSet::new();
+    for (f, tos) in &min.transitions {
+        states.insert(*f);
+        for (i, t) in tos {
+            states.insert(*t);
+            if let Inp::Subword { subdfa, .. } = min.verif_input(*i) {
+                subs.insert(format!("{:?}", subdfa));
+            }
+        }
+    }
+    let c = Compiled { command: v.command.to_string(), raw: min.clone(), min };
+    let script = emit(&c, shell).map_err(|_| ("emit", "FmtError"))?;
+    Ok(Outputs {
+        script,
+        dfa_dot: String::from_utf8_lossy(&dd).to_string(),
+        regex_dot: String::from_utf8_lossy(&rd).to_string(),
+        states: states.len(),
+        subdfas: subs.len(),
+    })
+}
+
 pub fn inp_of(d: &DFA, id: complgen::dfa::InpId) -> &Inp {
     d.verif_input(id)
 }
